@@ -474,12 +474,15 @@ def hazardous(text):
     """input-only recogniser of the remaining open defect class of the mesh reader (K1: a huge declared count or
     dimension is allocated unchecked); returns a K tag or None.  Downgrade-only (see `split_tag`)."""
     text = text.translate({7: 32, 8: 32})      # FEAT's white-space set also contains \a and \b
+    ks = ""
     for m in HAZ_NUM.finditer(text):
         for tok in m.group(1).split():
             mm = re.match(r"^[+]?(\d+)", tok)
             if mm and int(mm.group(1)) > 100000:
-                return "K1"
-    return None
+                ks = "1"
+    if "<SurfaceMesh" in text:
+        ks += "E"        # K13: SurfaceMesh::write omits the line break after </SurfaceMesh>
+    return ("K" + ks) if ks else None
 
 
 def has_parent_topology(text):
@@ -1152,9 +1155,11 @@ K_KINDS = {
     "C": ("sanitizer-asan", "abort", "rterr", "accepted"),
     # K12: a topology="parent" part with an entity count of zero below a non-zero one (the K6 fix covers "full" only)
     "D": ("rterr",),
+    # K13: the written form of a SurfaceMesh chart ("</SurfaceMesh>  </Chart>" on one line) is rejected by the reader
+    "E": ("rterr",),
 }
-K_ORDER = "B1CD"
-K_NAME = {"B": "1", "C": "11", "D": "12"}
+K_ORDER = "B1CDE"
+K_NAME = {"B": "1", "C": "11", "D": "12", "E": "13"}
 
 
 def first_content_line(text):
@@ -1466,6 +1471,18 @@ def gen_double_case(rng):
 
 def oracle_meshd(case, out):
     cls = outcome_class(out)
+    if case not in EXPECT:
+        # chart sweep at double: crash / hang / undocumented exception, and the construction verdict
+        exp, _ = split_tag(case.split(" ", 2)[1])
+        if cls in CRASH:
+            return "memory error / hang / undocumented termination: " + out[:120]
+        if exp == "R" and cls == "ok":
+            return "input violating its declared counts/dimensions/index ranges/syntax was accepted"
+        if exp == "A" and cls not in ("ok", "notype"):
+            return "valid mesh file rejected: " + out[:120]
+        if cls == "ok" and " RTERR" in out:
+            return "the writer's output of an accepted file is rejected by the reader:" + out.split(" RTERR", 1)[1][:60]
+        return None
     if cls != "ok":
         return "double-precision round trip of a valid file ended with " + out[:100]
     body, _, rt = out.partition(" RT")
@@ -1547,7 +1564,7 @@ def signature(case, out, why):
     kind of failure; anything else is new"""
     t = case.split(" ", 2)
     op = t[0]
-    if op == "mesh" and split_tag(t[1])[1]:
+    if op in ("mesh", "meshd") and split_tag(t[1])[1]:
         kind = failure_kind(out, why)
         for d in K_ORDER:
             if d in split_tag(t[1])[1] and kind in K_KINDS[d]:
@@ -1723,6 +1740,111 @@ def sweep_cases():
     return cases
 
 
+NUM_RE = re.compile(r"(?<![\w.])[-+]?\d+(?:\.\d*)?(?:[eE][-+]?\d+)?(?![\w.])")
+
+
+def number_variants(num):
+    """by-construction replacements of one number: (variant name, new token)"""
+    v = [("zero", "0"), ("tiny", "1e-7"), ("huge", "1e30"), ("nan", "nan"), ("inf", "inf"),
+         ("lead-minus", "-" + num[1:]), ("lead-dot", "." + num[1:]), ("lead-x", "x" + num[1:])]
+    v.append(("flip", num[1:] if num[0] == "-" else "-" + num.lstrip("+")))
+    return v
+
+
+def chart_number_cases(prefix, chart, suffix, ops, label):
+    """every number of the chart block `chart` replaced by every variant, one at a time.  Verdict by construction:
+    a token that is not a number (nan, inf, x...) must be rejected; a radius outside the chart constructor's domain
+    (radius > 0: sign flip, zero; the readers additionally reject |radius| < 1E-5) must be rejected with the
+    documented exception; everything else is undetermined - but an abort / signal / sanitizer report is a failure for
+    every input of every stream."""
+    cases = []
+    for m in NUM_RE.finditer(chart):
+        ctx = chart[max(0, m.start() - 12):m.start()]
+        is_radius = re.search(r'radius\s*=\s*"\s*$', ctx) is not None
+        in_name = re.search(r'name\s*=\s*"[^"]*$', chart[:m.start()].split("\n")[-1]) is not None
+        if in_name:
+            continue
+        for vname, tok in number_variants(m.group(0)):
+            if tok == m.group(0):
+                continue
+            text = prefix + chart[:m.start()] + tok + chart[m.end():] + suffix
+            if vname in ("nan", "inf", "lead-x"):
+                tag = "R"
+            elif is_radius and vname in ("flip", "zero", "tiny", "lead-minus"):
+                tag = "R"
+            else:
+                tag = "U"
+            tag = add_recognised(tag, text, valid=True)
+            for op in ops:
+                case = "%s %s %s" % (op, tag, hx(text))
+                KIND[case] = "chart-sweep:%s:%s" % (label, vname)
+                cases.append(case)
+    return cases
+
+
+def chart_sweep_cases(limit_bytes):
+    """deterministic sweep over every numeric attribute / content number of every chart type the reader accepts"""
+    H2 = '<FeatMeshFile version="1" mesh="conformal:hypercube:2:2">\n'
+    M2 = ('<Mesh type="conformal:hypercube:2:2" size="4 4 1">\n<Vertices>\n0 0\n1 0\n0 1\n1 1\n</Vertices>\n'
+          '<Topology dim="1">\n0 1\n2 3\n0 2\n1 3\n</Topology>\n<Topology dim="2">\n0 1 2 3\n</Topology>\n</Mesh>\n')
+    H3 = '<FeatMeshFile version="1" mesh="conformal:hypercube:3:3">\n'
+    M3 = ('<Mesh type="conformal:hypercube:3:3" size="8 1 1 1">\n<Vertices>\n0 0 0\n1 0 0\n0 1 0\n1 1 0\n0 0 1\n1 0 1\n0 1 1\n1 1 1\n'
+          '</Vertices>\n<Topology dim="1">\n0 1\n</Topology>\n<Topology dim="2">\n0 1 2 3\n</Topology>\n'
+          '<Topology dim="3">\n0 1 2 3 4 5 6 7\n</Topology>\n</Mesh>\n')
+    E = '</FeatMeshFile>\n'
+    co, cc = '<Chart name="c">\n', '</Chart>\n'
+    circle = '<Circle radius="0.25" midpoint="0.5 1.5" domain="0 4" />\n'
+    bezier = ('<Bezier dim="2" size="3" type="closed">\n<Points>\n0 0 0\n1 0.5 0.25 1 0\n0 0 0\n</Points>\n'
+              '<Params>\n0\n1\n2\n</Params>\n</Bezier>\n')
+    sphere = '<Sphere radius="0.25" midpoint="0.5 1.5 2.5" />\n'
+    surf = ('<SurfaceMesh verts="3" trias="1">\n<Vertices>\n0 0 0\n1 0 0\n0 1 0.5\n</Vertices>\n<Triangles>\n0 1 2\n'
+            '</Triangles>\n</SurfaceMesh>\n')
+    ext_c = '<Extrude origin="0.5 0.25" offset="1 2 3" angles="0.125 0.25 0.5">\n' + circle + '</Extrude>\n'
+    ext_b = '<Extrude>\n' + bezier + '</Extrude>\n'
+    q, d = [], []
+    for label, pre, chart, suf, qops, dops in [
+            ("circle", H2 + co, circle, cc + M2 + E, ["mesh"], ["meshd"]),
+            ("bezier", H2 + co, bezier, cc + M2 + E, ["mesh"], ["meshd"]),
+            ("sphere", H3 + co, sphere, cc + M3 + E, ["mesh"], ["meshd"]),
+            ("surfacemesh", H3 + co, surf, cc + M3 + E, ["mesh"], ["meshd"]),
+            ("extrude-circle", H3 + co, ext_c, cc + M3 + E, [], ["meshd"]),
+            ("extrude-bezier", H3 + co, ext_b, cc + M3 + E, [], ["meshd"])]:
+        # the unmodified template must be accepted
+        for op in qops:
+            q.append("%s %s %s" % (op, add_recognised("A", pre + chart + suf, valid=True), hx(pre + chart + suf)))
+        for op in dops:
+            d.append("%s %s %s" % (op, add_recognised("A", pre + chart + suf, valid=True), hx(pre + chart + suf)))
+        q += chart_number_cases(pre, chart, suf, qops, label)
+        d += chart_number_cases(pre, chart, suf, dops, label)
+    # shipped files: one-byte substitution of the leading character of the numbers of their chart blocks
+    droot = os.path.join(vlib.REPO, "data", "meshes")
+    if os.path.isdir(droot):
+        for f in sorted(os.listdir(droot)):
+            p = os.path.join(droot, f)
+            if not f.endswith(".xml") or os.path.getsize(p) > limit_bytes:
+                continue
+            raw = open(p, "rb").read().decode("latin-1")
+            if "<Chart" not in raw:
+                continue
+            mt = re.search(r'mesh="conformal:(\w+):(\d):(\d)"', raw[:300])
+            dbl = mt is not None and mt.group(1) == "hypercube" and mt.group(2) == mt.group(3) and mt.group(2) in "23"
+            k = 0
+            for blk in re.finditer(r"<Chart\b.*?</Chart>", raw, re.S):
+                for m in NUM_RE.finditer(blk.group(0)):
+                    line = blk.group(0)[:m.start()].split("\n")[-1]
+                    if re.search(r'name\s*=\s*"[^"]*$', line) or k >= 12:
+                        continue
+                    k += 1
+                    pos = blk.start() + m.start()
+                    is_radius = re.search(r'radius\s*=\s*"\s*$', raw[max(0, pos - 12):pos]) is not None
+                    text = raw[:pos] + "-" + raw[pos + 1:]
+                    tag = "R" if (is_radius and m.group(0)[0] not in "-") else "U"
+                    case = "%s %s %s" % ("meshd" if dbl else "mesh", add_recognised(tag, text, valid=True), hx(text))
+                    KIND[case] = "chart-sweep:shipped:lead-minus"
+                    (d if dbl else q).append(case)
+    return q, d
+
+
 def shipped_cases(limit_bytes):
     d = os.path.join(vlib.REPO, "data", "meshes")
     cases = []
@@ -1742,7 +1864,7 @@ def shipped_cases(limit_bytes):
 def build(args):
     srcdir = os.path.join(vlib.VERIF, "harness", "c11")
     return vlib.build_harness("c11", os.path.join(srcdir, "main.cpp"),
-                              extra_srcs=[os.path.join(srcdir, "mesh_%s.cpp" % k) for k in ("h1", "h2", "h3", "s2", "s3", "h2d")],
+                              extra_srcs=[os.path.join(srcdir, "mesh_%s.cpp" % k) for k in ("h1", "h2", "h3", "s2", "s3", "h2d", "h3d")],
                               extra_flags=["-fsanitize=address,undefined", "-fno-sanitize-recover=all", "-g"])
 
 
@@ -1810,13 +1932,15 @@ def main(argv):
         EXPECT[case] = exp
         dbl.append(case)
     shipped = shipped_cases(40000 if quick else 400000)
+    chart_q, chart_d = chart_sweep_cases(40000 if quick else 400000)
 
     mk = lambda name, cases, model=True: vlib.Stream(
         name, cases, [binary], drv if model else None, oracle=oracle, nontrivial=nontrivial, canon=canon, env=env,
         describe=describe, signature=signature, model_filter=model_filter)
     streams = [mk("corpus", corpus_cases()), mk("block-sweep", sweep_cases()), mk("mesh-valid", valid), mk("mesh-malformed", malformed),
                mk("ini", ini), mk("xml-scan", scan), mk("graph-bytes", graphs), mk("shipped-meshes", shipped),
-               mk("mesh-double-precision", dbl, model=False)]
+               mk("mesh-double-precision", dbl, model=False),
+               mk("chart-sweep", chart_q), mk("chart-sweep-double", chart_d, model=False)]
     rule = ("mesh files printed from random mesh nodes (5 shape types, 0-3 mesh parts with mappings/topology/attributes, "
             "0-2 partitions, surface variations: order, whitespace, comments, number formats) - non-trivial = has a "
             "Vertices/Topology/Mapping/Attribute/Patch block; malformed stream = 15 grammar-aware mutation kinds with "
